@@ -124,7 +124,9 @@ package generic
 //@   modifies everything
 //@   ensures cbRuns == old(cbRuns) + 1 && waits >= old(waits)
 //@   ensures waitOK(d, callbacks)
+//@   ensures unchanged(response.Response.Failed)
 //@ func (*Driver).executeCallback [C18]
+//@   ensures #responses-under-construction-are-left-alone unchanged(response.Response.Failed)
 //@   requires 0 <= i && i < len(callbacks) && callbacks[i] != nil && waitOK(d, callbacks)
 //@   ensures #once-never-runs-twice old(callbacks[i].Once) && old(callbacks[i].triggered) ==> result.1 != nil && isErr(result.1, util.ErrOperationError) && cbRuns == old(cbRuns) && waits == old(waits)
 //@   at call dyn#1 assert #callback-runs-with-the-accumulated-output arg1 == old(b) && arg0 == d && cb == old(callbacks)[old(i)] && (cb.Once ==> cb.triggered && !old(callbacks[i].triggered))
@@ -154,6 +156,7 @@ package generic
 // one round of waiting: the reader goroutine reports the first callback whose trigger holds; that callback runs with the
 // accumulated output; without a report in time the operation ends with a timeout error
 //@ func (*Driver).handleCallbacks [C18 C05]
+//@   ensures #responses-under-construction-are-left-alone unchanged(response.Response.Failed)
 //@   requires waitOK(d, callbacks)
 //@   chaninv c v => v != nil && (v.err == nil ==> firstTrig(callbacks, v.i, v.b) && v.callbacks === callbacks)
 //@   modifies everything
@@ -193,3 +196,19 @@ package generic
 //@   at return assert #a-failing-hook-fails-the-open-with-its-own-error hookErr != nil ==> result == hookErr
 //@   at call! Close#1 assert #the-channel-is-closed-only-because-the-hook-failed hookErr != nil && recv == d.Channel
 //@   at return assert #success-means-channel-opened-and-hook-passed result == nil ==> hookErr == nil
+
+// ---- C18: the send with callbacks writes the input (when there is one) and a return, then waits for the first trigger ----------
+//@ func (*Driver).SendWithCallbacks [C18]
+//@   requires RI(d.Channel.Q) && alive(d.Channel.Errs) && cbsOK(callbacks)
+//@   at call WriteAndReturn#1 assert #only-a-non-empty-input-is-written-unredacted input != "" && arg0 == input && !arg1
+//@   at call! handleCallbacks#1 assert #waiting-starts-with-empty-output-and-the-given-callbacks-and-timeout arg0 === callbacks && len(arg1) == 0 && len(arg2) == 0 && arg3 == timeout
+//@   at call! NewResponse#1 assert #operation-failure-strings-win-when-given arg0 == input && arg3 === (len(old(driverOpts.FailedWhenContains)) == 0 ? d.FailedWhenContains : old(driverOpts.FailedWhenContains))
+//@   at call! Record#1 assert #the-response-records-what-the-callbacks-returned arg0 == b
+//@   ensures #nil-on-error result.1 != nil ==> result.0 == nil
+// a callback needs something to wait for; defaults: case-insensitive, output reset after each callback
+//@ func NewCallback [C18 C19]
+//@   loop 1 invariant -1 <= rangeindex && rangeindex < len(opts) && isnew(c) && c != nil
+//@   loop 1 invariant #every-option-applied-in-order optlog == old(optlog) ++ applied(opts, box("*generic.Callback", c), rangeindex + 1)
+//@   loop 1 invariant #defaults-before-the-first-option rangeindex == -1 ==> c.Callback == callback && c.Insensitive && c.ResetOutput && !c.Once && !c.Complete && c.NextTimeout == 0 && c.Contains == "" && c.ContainsRe == nil && !c.triggered && len(c.containsBytes) == 0 && len(c.notContainsBytes) == 0
+//@   ensures #nil-on-error result.1 != nil ==> result.0 == nil
+//@   at return assert #a-callback-without-text-and-pattern-is-a-bad-option result.1 == nil ==> result.0 == c && (c.Contains != "" || c.ContainsRe != nil) && optlog == old(optlog) ++ applied(opts, box("*generic.Callback", c), len(opts))
